@@ -353,6 +353,20 @@ pub fn run(ctx: &mut Ctx) {
         let mut budget = 1 + r.below(30);
         let depth = r.below(6);
         random_tree_tokens(&mut r, depth, &mut budget, &names, &mut toks);
+        // one case in 24: the tree sits inside very deep nesting, siblings are left behind on the
+        // way out (a level opened or closed wrongly moves them)
+        if k % 24 == 5 {
+            let d = gen::depth_tail(&mut r);
+            let mut deep: Vec<String> = (0..d).map(|_| "(".to_string()).collect();
+            deep.extend(toks.drain(..));
+            for level in 0..d {
+                deep.push(")".to_string());
+                if r.chance(1, 6) || level + 1 == d {
+                    deep.push(format!("{}", level));
+                }
+            }
+            toks = deep;
+        }
         let mut text = String::new();
         if r.bool() {
             text.push_str(*r.pick(&WS[..]));
